@@ -145,7 +145,7 @@ def gen_ctor(rng, n):
         inp = {"dim": dim, "letter": l, "shape": []}
         if l["kind"] == "reflection" and dim >= 2 and rng.random() < 0.4:
             # an array of normals gives an array of hyperplanes (never exactly dim+1 of them: that shape is read as one hyperplane's data)
-            shape = rng.choice([s for s in ([2], [3], [1], [2, 2], [4]) if s != [dim + 1]])
+            shape = rng.choice([s for s in ([2], [3], [1], [2, 2], [4]) if s[-1] != dim + 1])
             inp["shape"] = shape
             inp["batch"] = [L.encV(L.spacelike_vec(rng, dim)) for _ in range(int(np.prod(shape)))]
         if l["kind"] == "sl2" and rng.random() < 0.5:
@@ -864,6 +864,42 @@ def judge_pack(inp, obs, lr):
     return None
 
 
+# ---- S3: arrays of hyperplanes ---------------------------------------------------------------------------------
+def gen_crefl(rng, n):
+    for _ in range(n):
+        dim = rng.choice([2, 2, 3, 4])
+        shape = rng.choice([s for s in ([2], [3], [4], [1], [2, 2], [2, 3]) if s[-1] != dim + 1])   # (…, n+1, n+1) is read as hyperplane data
+        ds = []
+        for _ in range(int(np.prod(shape))):
+            while True:
+                d = [rng.gauss(0, 1) for _ in range(dim + 1)]
+                if -d[0] ** 2 + sum(x * x for x in d[1:]) > 0.2:
+                    break
+            ds.append(d)
+        yield {"dim": dim, "shape": shape, "normals": ds}
+
+
+def run_crefl(inp):
+    d = np.array(inp["normals"]).reshape(tuple(inp["shape"]) + (inp["dim"] + 1,))
+    R = np.asarray(H.Hyperplane(d.copy()).reflection_across().matrix, dtype=float)
+    J = Jf(inp["dim"] + 1)
+    dev = 0.0
+    for x, M in zip(np.array(inp["normals"]), L.units(R, 2)):
+        ex = np.eye(inp["dim"] + 1) - 2 * np.outer(J @ x, x) / (x @ J @ x)
+        dev = max(dev, float(np.max(np.abs(M - ex))))
+    return {"shape": list(R.shape), "res": fres(R), "dev": dev}
+
+
+def judge_crefl(inp, obs, lr):
+    tags = {"ctor": "reflection", "dim": inp["dim"], "composite": True}
+    if "exc" in obs:
+        return {"expected": "an array of reflections", "observed": obs, "tags": dict(tags, exc=obs["exc"])}
+    n1 = inp["dim"] + 1
+    if obs["shape"] != inp["shape"] + [n1, n1] or not (obs["res"] <= 1e-9 and obs["dev"] <= 1e-8):
+        return {"expected": "each unit is the reflection in its own normal (isometry, = 1 − 2 J nᵀn/<n,n>)", "observed": obs, "tags": tags}
+    return None
+
+
 CLAUSES = [
     Clause("ctor_corr", "corr", gen_ctor, run_ctor, judge_ctor, lean=lean_ctor,
            site="hyperbolic.Isometry.standard_rotation/elliptic/standard_loxodromic, sl2_iso, Subspace.reflection_across",
@@ -885,6 +921,9 @@ CLAUSES = [
     Clause("iso_oracle_far", "oracle", gen_oracle(3, 4.0), run_oracle, judge_oracle,
            site="every Isometry constructor; Transformation.apply/inv", budget={"quick": 300, "thorough": 12000},
            what="same with translation lengths up to 4"),
+    Clause("composite_reflection_oracle", "oracle", gen_crefl, run_crefl, judge_crefl, site="hyperbolic.Hyperplane / Subspace.reflection_across (composite)",
+           budget={"quick": 80, "thorough": 2000},
+           what="arrays of spacelike normals: every unit of the composite reflection is the reflection in its own normal"),
     Clause("packaging_oracle", "oracle", gen_pack, run_pack, judge_pack, site="every Isometry constructor (parameter packagings)",
            budget={"quick": 300, "thorough": 6000},
            what="integer-valued parameters passed as Python int / NumPy integer scalars / 0-d arrays / integer arrays and lists / float32: the result is an isometry and equals the float64 result"),
